@@ -12,7 +12,7 @@ P = {
         "exactly on the set zin_k = -z0_k (pole of the reflection coefficient; the network terminated in z0 at all ports has a natural mode) a non-finite result of a ...zi/...zin function is accepted and counted (label accepted:nonfinite-zin-at-pole-of-reflection), a finite one must be right; vnaconv(3) allows inf/nan where the conversion is nondeterministic",
     ],
     "tiers": tiers(
-        quick=[{"name": "rand", "mode": "run", "count": 40000, "max_size": 100, "shards": 16}],
+        quick=[{"name": "rand", "mode": "run", "count": 120000, "max_size": 100, "shards": 16, "max_seconds": 60}],
         thorough=[{"name": "rand", "mode": "run", "count": 3000000, "max_size": 100, "shards": 16, "max_seconds": 1200}],
     ),
 }
